@@ -367,6 +367,103 @@ func c16NilSafe(c *Ctx, envs []zooEnv) {
 	}
 }
 
+// c16DocTypes: docgen.CreateDoc(env).Types documents every defined struct type reachable from the
+// environment with its members.  For each of them: a documented member resolves in Go (an exported,
+// unambiguous field, or a method of T or *T) and is not protobuf bookkeeping (`XXX_…`, which docgen
+// leaves out on purpose); and every exported field that Go resolves, except `XXX_…`, is documented.
+// (Top-level names are not filtered: docgen lists `XXX_…` variables, as the checker accepts them.)
+func c16DocTypes(c *Ctx, envs []zooEnv) {
+	for _, e := range envs {
+		et := reflect.TypeOf(e.Val)
+		base := et
+		if base.Kind() == reflect.Ptr {
+			base = base.Elem()
+		}
+		if base.Kind() != reflect.Struct || base.Name() == "" {
+			continue
+		}
+		var doc *docgen.Context
+		func() {
+			defer func() { recover() }()
+			doc = docgen.CreateDoc(e.Val)
+		}()
+		if doc == nil {
+			continue
+		}
+		// the defined struct types reachable from the environment, by name
+		byName := map[string]reflect.Type{}
+		var walk func(t reflect.Type, d int)
+		walk = func(t reflect.Type, d int) {
+			if t == nil || d > 8 {
+				return
+			}
+			switch t.Kind() {
+			case reflect.Ptr, reflect.Slice, reflect.Array:
+				walk(t.Elem(), d+1)
+			case reflect.Map:
+				walk(t.Key(), d+1)
+				walk(t.Elem(), d+1)
+			case reflect.Func:
+				for i := 0; i < t.NumIn(); i++ {
+					walk(t.In(i), d+1)
+				}
+				for i := 0; i < t.NumOut(); i++ {
+					walk(t.Out(i), d+1)
+				}
+			case reflect.Struct:
+				if t.Name() != "" {
+					if _, seen := byName[t.Name()]; seen {
+						return
+					}
+					byName[t.Name()] = t
+				}
+				for i := 0; i < t.NumField(); i++ {
+					walk(t.Field(i).Type, d+1)
+				}
+				for _, mt := range []reflect.Type{t, reflect.PtrTo(t)} {
+					for i := 0; i < mt.NumMethod(); i++ {
+						walk(mt.Method(i).Type, d+1)
+					}
+				}
+			}
+		}
+		walk(base, 0)
+		for tn, dt := range doc.Types {
+			t, ok := byName[string(tn)]
+			if !ok || dt.Kind != "struct" {
+				continue
+			}
+			c.R.Case("doctype|"+e.Name+"|"+string(tn), true)
+			c.R.Count("doc:types", 1)
+			in := c16Input{e.Name, t.String(), "docgen type " + string(tn), string(tn)}
+			for id := range dt.Fields {
+				name := string(id)
+				sf, isField := t.FieldByName(name)
+				_, m1 := t.MethodByName(name)
+				_, m2 := reflect.PtrTo(t).MethodByName(name)
+				resolves := (isField && sf.PkgPath == "") || m1 || m2
+				if strings.HasPrefix(name, "XXX_") || !resolves {
+					violateKeyed16(c, Violation{What: "docgen documents a member of a type that does not resolve in Go (ambiguous or unexported) or that is protobuf bookkeeping", Key: "c16:docgen-type-member-not-resolvable",
+						Input: in, Expect: "only exported unambiguous fields and methods, no XXX_ names", Got: name})
+				}
+			}
+			for _, n := range sortedKeys(func() map[string]bool { m := map[string]bool{}; collectNames(t, m, 0); return m }()) {
+				sf, isField := t.FieldByName(n)
+				if !isField || sf.PkgPath != "" || strings.HasPrefix(n, "XXX_") {
+					continue
+				}
+				if _, listed := dt.Fields[docgen.Identifier(n)]; !listed {
+					violateKeyed16(c, Violation{What: "docgen omits an exported field of a documented type that Go (and the checker) resolve", Key: "c16:docgen-type-member-missing",
+						Input: in, Expect: n + " documented", Got: "absent"})
+				}
+			}
+		}
+	}
+	if c.R.Counters["doc:types"] < 20 {
+		c.R.Mismatch("generator", "doc:types", "", "too few documented types checked")
+	}
+}
+
 var exprReserved = map[string]bool{
 	"true": true, "false": true, "nil": true, "not": true, "in": true, "and": true, "or": true,
 	"matches": true, "contains": true, "startsWith": true, "endsWith": true,
@@ -892,6 +989,9 @@ func runC16(c *Ctx) {
 
 	// ---------------------------------------------------------------- 5. no environment; nil-safe access at run time
 	c16NilSafe(c, envs)
+
+	// ---------------------------------------------------------------- 6. docgen: the fields of the documented types
+	c16DocTypes(c, envs)
 
 	for _, k := range []string{"ident:accepted", "ident:rejected", "call:accepted", "member:accepted", "member:rejected", "membercall:accepted"} {
 		if c.R.Counters[k] == 0 {
